@@ -68,11 +68,21 @@ Theorem C13_amp_monotone : forall ncyc b (xs : list R), 0 < ncyc -> 0 <= b -> no
 Proof. exact P_C13.C13_amp_monotone. Qed.
 (** mutually inverse: the amplitude computed for N = cycles(a_ref) is a_ref.  Guards: the cut-off replaces no switched peak
     ([no_cut]; always true for cut_off = 0 — below the cut-off the two functions deliberately differ: one replaces the peak by
-    1e-14, the other keeps it) and some switched peak is non-zero (so that N > 0) *)
+    1e-14, the other keeps it) and some switched peak is non-zero (so that N > 0; discharged for every non-constant series in C13_inverse_nonconstant below) *)
 Theorem C13_inverse : forall a_ref b cut (xs : list R), 0 < a_ref -> b <> 0 -> no_cut cut xs ->
   (exists p, In p (switched_peaks 0 xs) /\ xat xs p <> 0) ->
   last (cyc_amp_R (last (n_cyc_R a_ref b cut xs) 0) b xs) 0 = a_ref.
 Proof. exact P_C13.C13_inverse. Qed.
+(** the guard "some switched peak is non-zero" is itself a theorem (C12: the global absolute maximum is a switched peak), so it
+    can be replaced by "some sample is non-zero", in particular it holds for every non-constant series *)
+Theorem C13_inverse_nonzero_sample : forall a_ref b cut (xs : list R), 0 < a_ref -> b <> 0 -> no_cut cut xs ->
+  (exists k, (k < length xs)%nat /\ xat xs k <> 0) ->
+  last (cyc_amp_R (last (n_cyc_R a_ref b cut xs) 0) b xs) 0 = a_ref.
+Proof. intros a_ref b cut xs Ha Hb Hc Hnz. apply P_C13.C13_inverse; auto. now apply P_C12.C12_sp_nonzero. Qed.
+Theorem C13_inverse_nonconstant : forall a_ref b cut (xs : list R), 0 < a_ref -> b <> 0 -> no_cut cut xs ->
+  first_up xs <> None ->
+  last (cyc_amp_R (last (n_cyc_R a_ref b cut xs) 0) b xs) 0 = a_ref.
+Proof. intros a_ref b cut xs Ha Hb Hc Hnc. apply P_C13.C13_inverse; auto. now apply P_C12.C12_sp_nonzero_of_nonconstant. Qed.
 Theorem C13_no_cut_at_zero : forall (xs : list R), no_cut 0 xs.
 Proof. exact P_C13.no_cut_0. Qed.
 (** amplitude scales linearly with the record (k > 0) *)
